@@ -22,17 +22,26 @@ type gEnumSpec struct {
 	Alphabet  []gOp
 	Names     []string // one short name per alphabet entry (witness readability)
 	Depth     int
+	DepthFor  map[string]int // optional per-start-state override of Depth
+}
+
+func (s gEnumSpec) depth(start string) int {
+	if d, ok := s.DepthFor[start]; ok {
+		return d
+	}
+	return s.Depth
 }
 
 func (s gEnumSpec) total() int {
-	n := 1
-	for i := 0; i < s.Depth; i++ {
-		n *= len(s.Alphabet)
+	total := 0
+	for _, st := range s.starts() {
+		n := 1
+		for i := 0; i < s.depth(st); i++ {
+			n *= len(s.Alphabet)
+		}
+		total += n
 	}
-	if len(s.Preambles) > 0 {
-		n *= len(s.Preambles)
-	}
-	return n
+	return total
 }
 
 func (s gEnumSpec) starts() []string {
@@ -57,7 +66,8 @@ func gEnumerate(t *testing.T, spec gEnumSpec, mk func(seq string) []gObserver, d
 }
 
 func gEnumerateFrom(t *testing.T, spec gEnumSpec, start string, countp *int, mk func(seq string) []gObserver, done func(seq string, w *gWorld)) {
-	idx := make([]int, spec.Depth)
+	depth := spec.depth(start)
+	idx := make([]int, depth)
 	n := len(spec.Alphabet)
 	count, finished := *countp, false
 	defer func() { *countp = count }()
@@ -67,7 +77,7 @@ func gEnumerateFrom(t *testing.T, spec gEnumSpec, start string, countp *int, mk 
 		synctest.Test(t, func(t *testing.T) {
 			for inBubble := 0; inBubble < 2000 && !finished; inBubble++ {
 				ops := append([]gOp(nil), pre...)
-				names := make([]string, spec.Depth)
+				names := make([]string, depth)
 				for i, k := range idx {
 					ops = append(ops, spec.Alphabet[k])
 					names[i] = spec.Names[k]
@@ -79,7 +89,7 @@ func gEnumerateFrom(t *testing.T, spec gEnumSpec, start string, countp *int, mk 
 				done(seq, w)
 				count++
 				// next sequence
-				i := spec.Depth - 1
+				i := depth - 1
 				for ; i >= 0; i-- {
 					idx[i]++
 					if idx[i] < n {
